@@ -113,6 +113,25 @@ var schemas = map[string][]field{
 	"CandNH":    {{"Key", "Key", kNat}, {"Index", "Index", kNat}},
 	"CandNHG":   {{"Key", "Key", kNat}, {"Id", "Id", kNat}, {"NextHop", "NextHop", kind{k: "list", s: "CandNH", elemNN: true, keyed: true}}},
 	"CandTop":   {{"Key", "Key", kNat}, {"NextHopGroup", "NextHopGroup", kNat}, {"NextHopGroupNetworkInstance", "NextHopGroupNetworkInstance", kStr}},
+	// the fluent builders: the protobufs they compose
+	"BytesValue":  {{"Value", "Value", kStr}},
+	"TopEntryB":   {{"NextHopGroup", "NextHopGroup", kPtr("UintValue")}, {"NextHopGroupNetworkInstance", "NextHopGroupNetworkInstance", kPtr("StringValue")}, {"EntryMetadata", "EntryMetadata", kPtr("BytesValue")}},
+	"Ipv4KeyB":    {{"Prefix", "Prefix", kStr}, {"Ipv4Entry", "Ipv4Entry", kPtrNN("TopEntryB")}},
+	"Ipv6KeyB":    {{"Prefix", "Prefix", kStr}, {"Ipv6Entry", "Ipv6Entry", kPtrNN("TopEntryB")}},
+	"PoppedU":     {{"PoppedMplsLabelStackUint64", "PoppedMplsLabelStackUint64", kNat}},
+	"LabelEntryB": {{"NextHopGroup", "NextHopGroup", kPtr("UintValue")}, {"NextHopGroupNetworkInstance", "NextHopGroupNetworkInstance", kPtr("StringValue")}, {"PoppedMplsLabelStack", "PoppedMplsLabelStack", kind{k: "list", s: "PoppedU", elemNN: true}}},
+	"LabelKeyB":   {{"Label", "Label", kind{k: "oneof", s: "LabelU"}}, {"LabelEntry", "LabelEntry", kPtrNN("LabelEntryB")}},
+	"NhgNhB":      {{"Weight", "Weight", kPtr("UintValue")}},
+	"NhgNhKeyB":   {{"Index", "Index", kNat}, {"NextHop", "NextHop", kPtr("NhgNhB")}},
+	"NhgPayloadB": {{"BackupNextHopGroup", "BackupNextHopGroup", kPtr("UintValue")}, {"NextHop", "NextHop", kind{k: "list", s: "NhgNhKeyB", elemNN: true}}},
+	"NhgKeyB":     {{"Id", "Id", kNat}, {"NextHopGroup", "NextHopGroup", kPtrNN("NhgPayloadB")}},
+	"ipv4Entry":         {{"pb", "pb", kPtrNN("Ipv4KeyB")}, {"ni", "ni", kStr}, {"electionID", "electionID", kPtr("Uint128")}},
+	"ipv6Entry":         {{"pb", "pb", kPtrNN("Ipv6KeyB")}, {"ni", "ni", kStr}, {"electionID", "electionID", kPtr("Uint128")}},
+	"labelEntry":        {{"ni", "ni", kStr}, {"pb", "pb", kPtrNN("LabelKeyB")}, {"electionID", "electionID", kPtr("Uint128")}},
+	"nextHopGroupEntry": {{"ni", "ni", kStr}, {"pb", "pb", kPtrNN("NhgKeyB")}, {"electionID", "electionID", kPtr("Uint128")}},
+	"AFTOperationB": {{"NetworkInstance", "NetworkInstance", kStr}, {"Entry", "Entry", kind{k: "oneof", s: "EntryB"}}, {"ElectionId", "ElectionId", kPtr("Uint128")}},
+	"AFTEntryB":     {{"NetworkInstance", "NetworkInstance", kStr}, {"Entry", "Entry", kind{k: "oneof", s: "EntryB"}}},
+	"FlushRequestB": {{"Election", "Election", kind{k: "oneof", s: "FlushElec"}}, {"NetworkInstance", "NetworkInstance", kind{k: "oneof", s: "FlushNI"}}},
 	"ModifyRequestF":    {{"Operation", "Operation", kind{k: "list", s: "AFTOperation", elemNN: true}}},
 	"gRIBIConnection":   {{"redundMode", "redundMode", kEnum}},
 	"ModifyRequest":     {{"Params", "Params", kPtr("SessionParameters")}, {"ElectionId", "ElectionId", kPtr("Uint128")}, {"Operation", "Operation", kPtr("Unit")}},
@@ -189,6 +208,8 @@ var leanStruct = map[string]string{
 	"AFTErrorDetails": "AFTErrorDetails", "AFTResultC": "AFTResultC", "SessionParametersResult": "SessionParametersResult", "ModifyResponseC": "ModifyResponseC", "PendingOp": "PendingOp",
 	"ElectionReqDetails": "ElectionReqDetails", "SessionParamReqDetails": "SessionParamReqDetails", "OpDetailsResults": "OpDetailsResults", "COpResult": "COpResult",
 	"AFTResultList": "(List AFTResultC)", "Bool": "Bool", "pendingQueue": "PendingQueue", "pendingEntry": "PendingEntry", "RibOpResult": "RibOpResult", "OrigTop": "OrigTop", "OrigNHGMember": "OrigNHGMember", "OrigNHG": "OrigNHG", "KeyRIB": "KeyRIB", "GPrefix": "GPrefix", "GLabel": "GLabel", "GId": "GId", "GIndex": "GIndex", "GAFTEntry": "GAFTEntry", "cache": "GetCache", "GetResponseG": "GetResponseG", "ReconEntS": "ReconEnt", "ReconEntN": "ReconEnt", "ReconAfts": "ReconAfts", "ReconNI": "ReconNI", "ReconOp": "ReconOp", "TblEntry": "TblEntry", "NewElem": "NewElem", "NewAfts": "NewAfts", "NewRIB": "NewRIB", "StringValue": "StringValue", "UintValue": "UintValue", "NewTop": "NewTop", "NewNHGMember": "NewNHGMember", "NewNHG": "NewNHG", "FlNHG": "FlNHG", "HolderG": "HolderG", "ErrView": "ErrView", "ClientErrG": "ClientErrG", "GStatus": "GStatus", "StrBox": "String", "ErrOptG": "ErrOptG", "UintBox": "Nat", "FlushErr": "FlushErr", "Nat": "Nat", "Status": "Status",
+	"BytesValue": "BytesValue", "TopEntryB": "TopEntryB", "Ipv4KeyB": "Ipv4KeyB", "Ipv6KeyB": "Ipv6KeyB", "PoppedU": "PoppedU", "LabelEntryB": "LabelEntryB", "LabelKeyB": "LabelKeyB", "NhgNhB": "NhgNhB", "NhgNhKeyB": "NhgNhKeyB", "NhgPayloadB": "NhgPayloadB", "NhgKeyB": "NhgKeyB", "AFTOperationB": "AFTOperationB", "AFTEntryB": "AFTEntryB", "FlushRequestB": "FlushRequestB",
+	"ipv4Entry": "Ipv4Builder", "ipv6Entry": "Ipv6Builder", "labelEntry": "LabelBuilder", "nextHopGroupEntry": "NhgBuilder",
 }
 
 func leanType(k kind) string {
@@ -322,6 +343,19 @@ type oneofCase struct {
 var oneofs = map[string][]oneofCase{
 	"FlushNI": {{"*spb.FlushRequest_All", "FlushNI.All", nil}, {"*spb.FlushRequest_Name", "FlushNI.Name", []field{{"Name", "Name", kStr}}}},
 	"GetNI":   {{"*spb.GetRequest_All", "GetNI.All", nil}, {"*spb.GetRequest_Name", "GetNI.Name", []field{{"Name", "Name", kStr}}}},
+	"LabelU": {{"*aftpb.Afts_LabelEntryKey_LabelUint64", "LabelU.U64", []field{{"LabelUint64", "LabelUint64", kNat}}}},
+	"FlushElec": {{"*spb.FlushRequest_Id", "FlushElec.Id", []field{{"Id", "Id", kPtr("Uint128")}}}, {"*spb.FlushRequest_Override", "FlushElec.Override", nil}},
+	// the entry oneof of spb.AFTOperation and of spb.AFTEntry as the fluent builders fill it
+	"EntryB": {
+		{"*spb.AFTOperation_Ipv4", "EntryB.Ipv4", []field{{"Ipv4", "Ipv4", kPtr("Ipv4KeyB")}}},
+		{"*spb.AFTOperation_Ipv6", "EntryB.Ipv6", []field{{"Ipv6", "Ipv6", kPtr("Ipv6KeyB")}}},
+		{"*spb.AFTOperation_Mpls", "EntryB.Mpls", []field{{"Mpls", "Mpls", kPtr("LabelKeyB")}}},
+		{"*spb.AFTOperation_NextHopGroup", "EntryB.NextHopGroup", []field{{"NextHopGroup", "NextHopGroup", kPtr("NhgKeyB")}}},
+		{"*spb.AFTEntry_Ipv4", "EntryB.Ipv4", []field{{"Ipv4", "Ipv4", kPtr("Ipv4KeyB")}}},
+		{"*spb.AFTEntry_Ipv6", "EntryB.Ipv6", []field{{"Ipv6", "Ipv6", kPtr("Ipv6KeyB")}}},
+		{"*spb.AFTEntry_Mpls", "EntryB.Mpls", []field{{"Mpls", "Mpls", kPtr("LabelKeyB")}}},
+		{"*spb.AFTEntry_NextHopGroup", "EntryB.NextHopGroup", []field{{"NextHopGroup", "NextHopGroup", kPtr("NhgKeyB")}}},
+	},
 	"GEntryKind": {
 		{"*spb.AFTEntry_NextHopGroup", "GEntryKind.NextHopGroup", []field{{"NextHopGroup", "NextHopGroup", kPtr("GId")}}},
 		{"*spb.AFTEntry_NextHop", "GEntryKind.NextHop", []field{{"NextHop", "NextHop", kPtr("GIndex")}}},
@@ -582,6 +616,9 @@ var substOcc map[ast.Expr]int
 // oracle that decides each: `selects`); returnHook, when set, receives the return statements of a
 // local function that is being translated inline where its result is tested.
 var selectOcc map[*ast.SelectStmt]int
+
+// selectorParent: the selector expressions that are the operand of another selector (x.f in x.f.g)
+var selectorParent map[ast.Expr]bool
 var returnHook func(r *ast.ReturnStmt, en env) string
 
 // oracleApp: "§name@x,y" applied to the local variables x, y (or "§name" alone)
@@ -811,6 +848,19 @@ func trExpr(e ast.Expr, en env) val {
 	}
 	switch v := e.(type) {
 	case *ast.TypeAssertExpr:
+		if cur != nil && cur.builder && v.Type != nil {
+			if c, ok := v.X.(*ast.CallExpr); ok && render(c.Fun) == "proto.Clone" && len(c.Args) == 1 && cur.isState(render(c.Args[0])) {
+				// proto.Clone(i.pb).(*T): a copy of the builder's protobuf as it is now (what is
+				// handed out does not change with later calls on the builder)
+				x := en.vars[render(c.Args[0])]
+				if x.kd.k != "ptr" || !x.kd.nn {
+					fail(v.Pos(), "copy of %s of kind %s", render(c.Args[0]), x.kd)
+				}
+				np := fresh("path")
+				en.bound[np] = atom(x.lean)
+				return val{lean: "(some " + atom(x.lean) + ")", kd: kPtr(x.kd.s), path: np}
+			}
+		}
 		if cur != nil && cur.statusViews && v.Type != nil {
 			if c, ok := v.X.(*ast.CallExpr); ok && render(c.Fun) == "proto.Clone" && len(c.Args) == 1 {
 				// proto.Clone(p).(*T): a copy of p
@@ -852,6 +902,11 @@ func trExpr(e ast.Expr, en env) val {
 		if x, ok := en.vars[r]; ok { // state field such as s.curElecID
 			if cur != nil && cur.isState(r) {
 				requireHeld(v.Pos(), en, "read of "+r)
+				if cur.builder && x.kd.k == "ptr" && x.kd.nn && !selectorParent[v] {
+					// the builder's own protobuf handed out as it is: later calls on the builder
+					// would change what was handed out
+					fail(v.Pos(), "%s is handed out without a copy (proto.Clone)", r)
+				}
 			}
 			return x
 		}
@@ -905,6 +960,19 @@ func trExpr(e ast.Expr, en env) val {
 						kv, ok := el.(*ast.KeyValueExpr)
 						if !ok {
 							fail(el.Pos(), "positional composite literal")
+						}
+						isField := false
+						for _, f := range oc.fields {
+							if f.goName == render(kv.Key) {
+								isField = true
+							}
+						}
+						if !isField {
+							// a member that carries only the empty message (All, Override)
+							if render(kv.Value) != "&spb.Empty{}" {
+								fail(kv.Pos(), "member %s of a oneof case without fields given %s", render(kv.Key), render(kv.Value))
+							}
+							continue
 						}
 						given[render(kv.Key)] = atom(trExpr(kv.Value, en).lean)
 					}
@@ -1108,6 +1176,20 @@ func trExpr(e ast.Expr, en env) val {
 		}
 		fail(v.Pos(), "dereference %s", render(v))
 	case *ast.IndexExpr:
+		if id, ok := v.X.(*ast.Ident); ok && cur != nil {
+			if fn, ok := cur.constMaps[id.Name]; ok {
+				if _, shadowed := en.vars[id.Name]; shadowed {
+					fail(v.Pos(), "%s names a local variable here, not the package's table", id.Name)
+				}
+				// a package-level table written as a map literal: the generated function of its
+				// entries (a key that is not in it yields the zero value)
+				k := trExpr(v.Index, en)
+				if k.kd.k != "int" && k.kd.k != "nat" && k.kd.k != "enum" {
+					fail(v.Pos(), "key of kind %s looked up in %s", k.kd, id.Name)
+				}
+				return val{lean: "(" + fn + " " + atom(k.lean) + ")", kd: kEnum}
+			}
+		}
 		m := trExpr(v.X, en)
 		if m.kd.k == "set" {
 			k := trExpr(v.Index, en)
@@ -1154,18 +1236,32 @@ func oneofMember(goType string) (*oneofCase, string) {
 		names = append(names, n)
 	}
 	sort.Strings(names)
+	var found *oneofCase
+	foundIn := ""
 	for _, n := range names {
-		if cur != nil && cur.oneofView != "" && n != cur.oneofView {
-			continue
-		}
 		cs := oneofs[n]
 		for i := range cs {
 			if cs[i].goType == goType {
-				return &cs[i], n
+				if cur != nil && cur.oneofView != "" && n == cur.oneofView {
+					return &cs[i], n
+				}
+				if found == nil {
+					found, foundIn = &cs[i], n
+				} else if cur != nil && cur.oneofView != "" {
+					// listed in several tables, none of them the function's view: undecided
+					found, foundIn = nil, "§ambiguous"
+				}
 			}
 		}
 	}
-	return nil, ""
+	if foundIn == "§ambiguous" {
+		return nil, ""
+	}
+	if found != nil && cur != nil && cur.oneofView != "" {
+		// the wrapper type is listed in one table only, or the view decides
+		return found, foundIn
+	}
+	return found, foundIn
 }
 
 // copyOf: a new struct with the contents of x (s.Proto(), status.FromProto(p), proto.Clone(p)): a
@@ -1584,6 +1680,21 @@ func loopState(list []ast.Stmt, en env) []string {
 						add(r)
 					} else if id, ok := lv.X.(*ast.Ident); ok {
 						add(id.Name)
+					} else if cur != nil {
+						// a field below a state pointer (i.pb.G.F = v): the state field changes
+						var root ast.Expr = lv
+						for {
+							se, ok := root.(*ast.SelectorExpr)
+							if !ok || cur.isState(render(root)) {
+								break
+							}
+							root = se.X
+						}
+						if cur.isState(render(root)) {
+							add(render(root))
+						} else {
+							fail(lv.Pos(), "assignment to %s inside a loop or branch", r)
+						}
 					}
 				}
 			}
@@ -2157,7 +2268,7 @@ func zeroOf(k kind) string {
 		return "false"
 	case "str":
 		return `""`
-	case "ptr":
+	case "ptr", "oneof":
 		return "none"
 	case "list":
 		return "[]"
@@ -2197,6 +2308,14 @@ func trCall(c *ast.CallExpr, en env) []val {
 			}
 		}
 		fail(c.Pos(), "make of %s", render(c.Args[0]))
+	}
+	if fn == "uint64" && len(c.Args) == 1 {
+		x := trExpr(c.Args[0], en)
+		if x.kd.k != "nat" && x.kd.k != "u64" {
+			fail(c.Pos(), "uint64 of %s", x.kd)
+		}
+		// an unsigned value (uint32 or uint64 in the source) keeps its value
+		return []val{{lean: x.lean, kd: kNat}}
 	}
 	if fn == "uint32" && len(c.Args) == 1 {
 		x := trExpr(c.Args[0], en)
@@ -3404,6 +3523,76 @@ func trAssign(a *ast.AssignStmt, en env) env {
 					break
 				}
 			}
+			if cur != nil && cur.builder {
+				// i.pb.F = v, i.pb.G.F = v: a field of the builder's protobuf (the pointers on the
+				// way are set by the constructor and never nil: declared so in the schema)
+				var chain []string
+				var root ast.Expr = lv
+				for {
+					se, ok := root.(*ast.SelectorExpr)
+					if !ok || cur.isState(render(root)) {
+						break
+					}
+					chain = append([]string{se.Sel.Name}, chain...)
+					root = se.X
+				}
+				if cur.isState(render(root)) && len(chain) > 0 {
+					rv := en.vars[render(root)]
+					if rv.kd.k != "ptr" || !rv.kd.nn {
+						fail(a.Pos(), "assignment below %s of kind %s", render(root), rv.kd)
+					}
+					// the structs on the way, outermost first
+					exprs := []string{atom(rv.lean)}
+					sname := rv.kd.s
+					var leaf field
+					for j, fn := range chain {
+						f := fieldOf(sname, fn, a.Pos())
+						if j == len(chain)-1 {
+							leaf = f
+							break
+						}
+						if f.kd.k != "ptr" || !f.kd.nn {
+							fail(a.Pos(), "assignment through %s.%s, which the schema does not declare never nil", sname, fn)
+						}
+						exprs = append(exprs, exprs[len(exprs)-1]+"."+f.lean)
+						sname = f.kd.s
+					}
+					nv := vals[i].lean
+					switch {
+					case leaf.kd.k == "ptr" && leaf.kd.nn:
+						fail(a.Pos(), "assignment to %s, a pointer the schema declares fixed", r)
+					case leaf.kd.k == "ptr":
+						if vals[i].kd.k != "nilptr" && (vals[i].kd.k != "ptr" || vals[i].kd.s != leaf.kd.s) {
+							fail(a.Pos(), "assignment of %s to %s", vals[i].kd, r)
+						}
+					case leaf.kd.k == "oneof":
+						if vals[i].kd.k != "nilptr" && (vals[i].kd.k != "oneof" || vals[i].kd.s != leaf.kd.s) {
+							fail(a.Pos(), "assignment of %s to %s", vals[i].kd, r)
+						}
+					case leaf.kd.k == "list":
+						if vals[i].kd.k != "list" || vals[i].kd.s != leaf.kd.s {
+							fail(a.Pos(), "assignment of %s to %s", vals[i].kd, r)
+						}
+					default:
+						if vals[i].kd.k != leaf.kd.k && !(leaf.kd.k == "nat" && (vals[i].kd.k == "u64" || vals[i].kd.k == "enum")) && !(leaf.kd.k == "enum" && vals[i].kd.k == "nat") {
+							fail(a.Pos(), "assignment of %s to %s of kind %s", vals[i].kd, r, leaf.kd)
+						}
+					}
+					upd := nv
+					for j := len(chain) - 1; j >= 0; j-- {
+						sn := rv.kd.s
+						for _, fn := range chain[:j] {
+							sn = fieldOf(sn, fn, a.Pos()).kd.s
+						}
+						f := fieldOf(sn, chain[j], a.Pos())
+						upd = "{ " + exprs[j] + " with " + f.lean + " := " + upd + " }"
+					}
+					n := fresh("pb")
+					pendingLets = append(pendingLets, fmt.Sprintf("let %s : %s := %s", n, leanStruct[rv.kd.s], upd))
+					en.vars[render(root)] = val{lean: n, kd: rv.kd, path: rv.path}
+					break
+				}
+			}
 			fail(a.Pos(), "assignment to %s, which is neither a declared state field nor a field of a local struct", r)
 		case *ast.StarExpr:
 			r := render(lv)
@@ -4342,6 +4531,13 @@ func trReturn(r *ast.ReturnStmt, en env) string {
 			}
 		}
 	}
+	if cur != nil && cur.builder && cur.recvName != "" && len(r.Results) == 1 && len(cur.rets) == 0 {
+		// return i: the builder itself (the chain goes on with the same state)
+		if id, ok := r.Results[0].(*ast.Ident); !ok || id.Name != cur.recvName {
+			fail(r.Pos(), "a builder method returns %s, not its receiver", render(r.Results[0]))
+		}
+		return trReturn(&ast.ReturnStmt{Return: r.Return}, en)
+	}
 	if len(r.Results) != len(cur.rets) {
 		fail(r.Pos(), "return of %d values, %d expected", len(r.Results), len(cur.rets))
 	}
@@ -4500,6 +4696,17 @@ func translate(sp *fnSpec, files map[string]*ast.File, srcs map[string][]byte) (
 		return true
 	})
 	returnHook = nil
+	selectorParent = map[ast.Expr]bool{}
+	ast.Inspect(fd.Body, func(n ast.Node) bool {
+		if se, ok := n.(*ast.SelectorExpr); ok {
+			selectorParent[se.X] = true
+		}
+		return true
+	})
+	sp.recvName = ""
+	if fd.Recv != nil && len(fd.Recv.List) == 1 && len(fd.Recv.List[0].Names) == 1 {
+		sp.recvName = fd.Recv.List[0].Names[0].Name
+	}
 	stmts := fd.Body.List
 	if sp.loop {
 		// one iteration of the receive loop of the first goroutine the function starts, from the
@@ -4567,6 +4774,17 @@ func translate(sp *fnSpec, files map[string]*ast.File, srcs map[string][]byte) (
 		binders = append(binders, fmt.Sprintf("(%s : %s)", st.lean, leanType(st.kd)))
 		en.vars[st.goExpr] = val{lean: st.lean, kd: st.kd, path: st.goExpr}
 	}
+	// two binders of one name: the later would hide the earlier in the generated definition
+	{
+		seen := map[string]bool{}
+		for _, b := range binders {
+			n := strings.TrimPrefix(strings.SplitN(b, " ", 2)[0], "(")
+			if seen[n] {
+				return "", fmt.Errorf("%s: the specification binds the name %s twice", sp.goName, n)
+			}
+			seen[n] = true
+		}
+	}
 	var retTypes []string
 	for _, r := range sp.rets {
 		retTypes = append(retTypes, leanType(retKind(r)))
@@ -4612,7 +4830,90 @@ func translate(sp *fnSpec, files map[string]*ast.File, srcs map[string][]byte) (
 	// one line: Lean's application syntax is sensitive to the column of an argument that follows a
 	// line break, and the generated terms are not laid out by column
 	body = strings.ReplaceAll(body, "\n", " ")
-	return fmt.Sprintf("/-- translated from `%s` (%s) -/\ndef %s %s : %s :=\n%s\n", sp.goName, sp.file, sp.leanName, strings.Join(binders, " "), strings.Join(retTypes, " × "), body), nil
+	pre := ""
+	var tables []string
+	for t := range sp.constMaps {
+		tables = append(tables, t)
+	}
+	sort.Strings(tables)
+	for _, t := range tables {
+		d, err := constMapDef(f, t, sp.constMaps[t])
+		if err != nil {
+			return "", fmt.Errorf("%s: %v", sp.goName, err)
+		}
+		pre += d
+	}
+	return pre + fmt.Sprintf("/-- translated from `%s` (%s) -/\ndef %s %s : %s :=\n%s\n", sp.goName, sp.file, sp.leanName, strings.Join(binders, " "), strings.Join(retTypes, " × "), body), nil
+}
+
+// constMapDef: `var t = map[K]V{k1: v1, …}` at package level, with constant integer keys and
+// enumeration constants of the protobuf package as values, as a Lean function on the key
+// (first entry that matches; Go rejects duplicate constant keys, so the order does not matter)
+func constMapDef(f *ast.File, name, lean string) (string, error) {
+	for _, d := range f.Decls {
+		gd, ok := d.(*ast.GenDecl)
+		if !ok || gd.Tok != token.VAR {
+			continue
+		}
+		for _, spc := range gd.Specs {
+			vs := spc.(*ast.ValueSpec)
+			for i, n := range vs.Names {
+				if n.Name != name {
+					continue
+				}
+				if i >= len(vs.Values) {
+					return "", fmt.Errorf("table %s has no initial value", name)
+				}
+				cl, ok := vs.Values[i].(*ast.CompositeLit)
+				if !ok {
+					return "", fmt.Errorf("table %s is not a map literal", name)
+				}
+				if _, ok := cl.Type.(*ast.MapType); !ok {
+					return "", fmt.Errorf("table %s is not a map literal", name)
+				}
+				body := "0"
+				for j := len(cl.Elts) - 1; j >= 0; j-- {
+					kv, ok := cl.Elts[j].(*ast.KeyValueExpr)
+					if !ok {
+						return "", fmt.Errorf("table %s: element without a key", name)
+					}
+					kid, ok := kv.Key.(*ast.Ident)
+					if !ok {
+						return "", fmt.Errorf("table %s: key %s is not a named constant", name, render(kv.Key))
+					}
+					kval, ok := constValue(f, kid.Name)
+					if !ok {
+						return "", fmt.Errorf("table %s: the value of constant %s could not be determined", name, kid.Name)
+					}
+					vsel, ok := kv.Value.(*ast.SelectorExpr)
+					if !ok || render(vsel.X) != "spb" {
+						return "", fmt.Errorf("table %s: value %s is not an enumeration constant of the protobuf package", name, render(kv.Value))
+					}
+					body = fmt.Sprintf("if k = %s then %s else %s", kval, knownCtor(kv.Pos(), vsel.Sel.Name), body)
+				}
+				// assigned anywhere else in the file?
+				var reassigned error
+				ast.Inspect(f, func(nd ast.Node) bool {
+					if as, ok := nd.(*ast.AssignStmt); ok {
+						for _, l := range as.Lhs {
+							if ix, ok := l.(*ast.IndexExpr); ok && render(ix.X) == name {
+								reassigned = fmt.Errorf("table %s is written to after its initialisation", name)
+							}
+							if id, ok := l.(*ast.Ident); ok && id.Name == name && as.Tok == token.ASSIGN {
+								reassigned = fmt.Errorf("table %s is assigned after its initialisation", name)
+							}
+						}
+					}
+					return true
+				})
+				if reassigned != nil {
+					return "", reassigned
+				}
+				return fmt.Sprintf("/-- the package-level table `%s`, entry by entry -/\ndef %s (k : Int) : Nat :=\n  %s\n\n", name, lean, body), nil
+			}
+		}
+	}
+	return "", fmt.Errorf("table %s not found", name)
 }
 
 // checkRepoStructs compares the schema of the structs declared in /repo with the source.
